@@ -1,5 +1,30 @@
 (* C13 — statements only. *)
 From N2 Require Import Model.All.
+From N2 Require Import Proofs.CanonBase Proofs.CanonProps.
+
+Theorem C13_total : forall p, p <> [] -> (length (comps p) <= 60)%nat -> exists q, canon p = Ok q.
+Proof. exact canon_total. Qed.
+Print Assumptions C13_total.
+
+Theorem C13_outcomes : forall p, (exists q, canon p = Ok q) \/ canon p = Panic 0%N \/ canon p = Panic 1%N.
+Proof. exact canon_outcomes. Qed.
+Print Assumptions C13_outcomes.
+
+Theorem C13_idempotent : forall p q, canon p = Ok q -> canon q = Ok q.
+Proof. exact canon_idempotent. Qed.
+Print Assumptions C13_idempotent.
+
+Theorem C13_never_longer : forall p q, canon p = Ok q -> (length q <= length p)%nat.
+Proof. exact canon_never_longer. Qed.
+Print Assumptions C13_never_longer.
+
+Theorem C13_sem_preserved : forall p q, canon p = Ok q -> sem q = sem p.
+Proof. exact canon_sem_preserved. Qed.
+Print Assumptions C13_sem_preserved.
+
+Theorem C13_normal_form : forall p q, canon p = Ok q -> normal_form q = true.
+Proof. exact canon_normal_form. Qed.
+Print Assumptions C13_normal_form.
 
 Theorem C13_same_node_refuted :
   exists s p q p' q', uses_only s p = true /\ uses_only s q = true /\ canon p = Ok p' /\ canon q = Ok q' /\
@@ -8,3 +33,4 @@ Proof.
   exists 47%N, [46;46;47;97;47;46;46]%N, [46;46]%N, [46;46;47]%N, [46;46]%N.
   vm_compute. repeat split; discriminate.
 Qed.
+Print Assumptions C13_same_node_refuted.
